@@ -2,8 +2,14 @@
 """Regenerates /verif/MANIFEST.json from props.json and not_applicable.json."""
 import json, subprocess, os
 os.chdir('/verif')
+import glob
 props = json.load(open('props.json'))
-na = json.load(open('not_applicable.json'))
+byid = {p['id']: p for p in props}
+for f in sorted(glob.glob('props.d/*.json')):
+    p = json.load(open(f))
+    byid[p['id']] = p
+props = list(byid.values())
+na =json.load(open('not_applicable.json'))
 allids = [json.loads(l)['id'] for l in open('properties.jsonl')]
 claimed = {p['id'] for p in props}
 checks = []
